@@ -543,8 +543,9 @@ from srccall import with_src  # noqa: E402
 # table (PyRt.Env), which Src.envOfCfg builds from the model's configuration record
 PROP = with_src(C15(), share=5, functions=[
                     "_version_nodot", "_py_interpreter_range", "_abi3_applies", "_is_threaded_cpython", "compatible_tags",
-                    "cpython_tags", "_cpython_abis", "_get_config_var"],
-                module="PkgProofs.Props.Src.Tags",
+                    "cpython_tags", "_cpython_abis", "_get_config_var", "Tag.__str__", "Tag.__eq__", "Tag.__hash__",
+                    "_normalize_string", "interpreter_name", "interpreter_version", "_generic_abi", "generic_tags", "sys_tags"],
+                module=["PkgProofs.Props.Src.Tags", "PkgProofs.Props.Src.TagObj", "PkgProofs.Props.Src.Tags2"],
                 theorems=["Src._version_nodot_translated", "Src._version_nodot_eq_model",
                           "Src._py_interpreter_range_translated", "Src._py_interpreter_range_eq_model",
                           "Src._abi3_applies_translated", "Src._abi3_applies_eq_model",
@@ -553,4 +554,13 @@ PROP = with_src(C15(), share=5, functions=[
                           "Src.compatible_tags_translated", "Src.compatible_tags_eq_model",
                           "Src._get_config_var_translated", "Src._get_config_var_eq_model",
                           "Src._cpython_abis_translated", "Src._cpython_abis_eq_model",
-                          "Src.cpython_tags_translated", "Src.cpython_tags_eq_model"])
+                          "Src.cpython_tags_translated", "Src.cpython_tags_eq_model",
+                          "Src.Tag.__str___translated", "Src.Tag.__str___eq_model",
+                          "Src.Tag.__eq___translated", "Src.Tag.__eq___eq_model", "Src.Tag.__eq___other",
+                          "Src.Tag.__hash___translated", "Src.Tag.__hash___eq_model", "Src.Tag.__hash___agrees",
+                          "Src._normalize_string_translated", "Src._normalize_string_eq_model",
+                          "Src.interpreter_name_translated", "Src.interpreter_name_eq_model",
+                          "Src.interpreter_version_translated", "Src.interpreter_version_eq_model",
+                          "Src._generic_abi_translated", "Src._generic_abi_eq_model",
+                          "Src.generic_tags_translated", "Src.generic_tags_eq_model",
+                          "Src.sys_tags_translated", "Src.sys_tags_eq_model"])
